@@ -297,20 +297,17 @@ def run_case(case):
             def norm(v):
                 return repr(float(v)) if isinstance(v, lab.NUM) and not isinstance(v, bool) else repr(v)
             index, alive = {}, [True] * len(pool)
-            buckets = {}        # (field, value) -> expected rows sharing that plain field value
+            MARK = (refmodel.AnyOf, refmodel.AsSet, refmodel.AsCounters, refmodel.EitherOf, list)
+            buckets = {}        # (plain field names, their values) -> expected rows agreeing on ALL plain fields
             for e in exp_tail:
-                f = next((k for k, v in sorted(e.items()) if v is not None and not isinstance(
-                    v, (refmodel.AnyOf, refmodel.AsSet, refmodel.AsCounters, refmodel.EitherOf, list))), None)
-                buckets.setdefault((f, norm(e[f]) if f is not None else None), []).append(e)
-            for (f, val), exps in buckets.items():
-                if f is None:
-                    cand = [j for j in range(len(pool)) if alive[j]]
-                else:
-                    if f not in index:
-                        index[f] = {}
-                        for j, g in enumerate(pool):
-                            index[f].setdefault(norm(g.get(f)), []).append(j)
-                    cand = [j for j in index[f].get(val, []) if alive[j]]
+                fs = tuple(sorted(k for k, v in e.items() if v is not None and not isinstance(v, MARK)))
+                buckets.setdefault((fs, tuple(norm(e[k]) for k in fs)), []).append(e)
+            for (fs, vals), exps in buckets.items():
+                if fs not in index:
+                    index[fs] = {}
+                    for j, g in enumerate(pool):
+                        index[fs].setdefault(tuple(norm(g.get(k)) for k in fs), []).append(j)
+                cand = [j for j in index[fs].get(vals, []) if alive[j]]
                 if len(exps) * len(cand) <= 40000:
                     # maximum bipartite matching inside the bucket (markers such as `any` make first-fit unsound)
                     adj = [[j for j in cand if match_row(e, pool[j])] for e in exps]
@@ -332,12 +329,63 @@ def run_case(case):
                         alive[j] = False
                     rest.extend(e for i, e in enumerate(exps) if i not in got_e)
                 else:
+                    # big bucket: rows differ only in their marker fields, whose values come from small pools -> match
+                    # GROUPS of identical rows with a max-flow on the (small) group graph (sound, unlike first-fit)
+                    Lg, Rg = {}, {}
                     for e in exps:
-                        hit = next((j for j in cand if alive[j] and match_row(e, pool[j])), None)
-                        if hit is not None:
-                            alive[hit] = False
-                        else:
-                            rest.append(e)
+                        Lg.setdefault(repr(sorted((k, repr(getattr(v, 'values', getattr(v, 'alts', v))))
+                                                  for k, v in e.items())), []).append(e)
+                    for j in cand:
+                        Rg.setdefault(repr(sorted((k, norm(v) if not isinstance(v, list) else repr(v))
+                                                  for k, v in pool[j].items() if v is not None)), []).append(j)
+                    lk, rk = list(Lg), list(Rg)
+                    edge = {(a, b) for a in range(len(lk)) for b in range(len(rk))
+                            if match_row(Lg[lk[a]][0], pool[Rg[rk[b]][0]])}
+                    lcap = [len(Lg[k]) for k in lk]
+                    rcap = [len(Rg[k]) for k in rk]
+                    flow = {}
+                    # Edmonds-Karp on source -> L -> R -> sink
+                    while True:
+                        parent = {}
+                        queue = [('L', a) for a in range(len(lk)) if lcap[a] > 0]
+                        for q in queue:
+                            parent[q] = None
+                        found = None
+                        while queue and found is None:
+                            node = queue.pop(0)
+                            if node[0] == 'L':
+                                for b in range(len(rk)):
+                                    if (node[1], b) in edge and ('R', b) not in parent:
+                                        parent[('R', b)] = node
+                                        queue.append(('R', b))
+                            else:
+                                b = node[1]
+                                if rcap[b] > 0:
+                                    found = node
+                                    break
+                                for a in range(len(lk)):
+                                    if flow.get((a, b), 0) > 0 and ('L', a) not in parent:
+                                        parent[('L', a)] = node
+                                        queue.append(('L', a))
+                        if found is None:
+                            break
+                        # augment by one unit along the path
+                        node = found
+                        rcap[node[1]] -= 1
+                        while parent[node] is not None:
+                            prev = parent[node]
+                            if node[0] == 'R':
+                                flow[(prev[1], node[1])] = flow.get((prev[1], node[1]), 0) + 1
+                            else:
+                                flow[(node[1], prev[1])] -= 1
+                            node = prev
+                        lcap[node[1]] -= 1
+                    for (a, b), f in flow.items():
+                        for _ in range(f):
+                            alive[Rg[rk[b]].pop()] = False
+                            Lg[lk[a]].pop()
+                    for k in lk:
+                        rest.extend(Lg[k])
             pool = [g for j, g in enumerate(pool) if alive[j]]
         if rest and len(rest) <= 40:
             # pair the leftovers globally by ascending number of differing fields, then name the fields
